@@ -59,6 +59,56 @@ theorem splitLines_LF_last (is : List Item) : ∀ cur : List Item, noLFItems cur
         rw [splitLines_byte_ne _ _ _ hb']
         exact ih _ (by simp [noLFItems_append, hc, noLFItems, hne])
 
+theorem splitLinesE_flatten (is cur : List Item) :
+    ((splitLinesE is cur).map (·.2)).flatten = cur ++ is := by
+  induction is generalizing cur with
+  | nil => simp
+  | cons i is ih =>
+    cases i with
+    | tok t =>
+      by_cases hb : breaksBefore t is.isEmpty = true
+      · rw [splitLinesE_tok_break _ _ _ hb, List.map_cons, List.flatten_cons, ih]; simp
+      · have hb' : breaksBefore t is.isEmpty = false := by simpa using hb
+        rw [splitLinesE_tok_plain _ _ _ hb', ih]; simp
+    | byte b =>
+      by_cases hb : b == LF
+      · have : b = LF := eq_of_beq hb
+        subst this
+        rw [splitLinesE_byte_LF, List.map_cons, List.flatten_cons, ih]; simp
+      · have hb' : (b == LF) = false := by simpa using hb
+        rw [splitLinesE_byte_ne _ _ _ hb', ih]; simp
+
+theorem splitLinesE_LF_last (is : List Item) : ∀ cur : List Item, noLFItems cur = true →
+    ∀ l ∈ splitLinesE is cur, ∃ body, noLFItems body = true ∧ (l.2 = body ∨ l.2 = body ++ [.byte LF]) := by
+  induction is with
+  | nil => intro cur hc l hl; simp at hl; rw [hl]; exact ⟨cur, hc, Or.inl rfl⟩
+  | cons i is ih =>
+    intro cur hc
+    cases i with
+    | tok t =>
+      by_cases hb : breaksBefore t is.isEmpty = true
+      · rw [splitLinesE_tok_break _ _ _ hb]
+        intro l hl
+        rcases List.mem_cons.mp hl with h | h
+        · rw [h]; exact ⟨cur, hc, Or.inl rfl⟩
+        · exact ih [.tok t] rfl l h
+      · have hb' : breaksBefore t is.isEmpty = false := by simpa using hb
+        rw [splitLinesE_tok_plain _ _ _ hb']
+        exact ih _ (by simp [noLFItems_append, hc, noLFItems])
+    | byte b =>
+      by_cases hb : b == LF
+      · have : b = LF := eq_of_beq hb
+        subst this
+        rw [splitLinesE_byte_LF]
+        intro l hl
+        rcases List.mem_cons.mp hl with h | h
+        · rw [h]; exact ⟨cur, hc, Or.inr rfl⟩
+        · exact ih [] rfl l h
+      · have hb' : (b == LF) = false := by simpa using hb
+        have hne : b ≠ LF := fun e => by simp [e] at hb'
+        rw [splitLinesE_byte_ne _ _ _ hb']
+        exact ih _ (by simp [noLFItems_append, hc, noLFItems, hne])
+
 /-- walking over a prefix: the lines it completes and the line it leaves under construction -/
 def splitPre : List Item → List Item → List (List Item) × List Item
   | [], cur => ([], cur)
@@ -108,6 +158,31 @@ theorem renderLine_cases (l : List Item) :
     | [], h => simp [oneCuttable] at h
     | _ :: _ :: _, h => simp [oneCuttable] at h
   · left; rw [if_neg h]
+
+theorem renderLineE_cases (l : Bool × List Item) :
+    renderLineE l = keepLine l.2
+    ∨ (renderLineE l = cutLine l.2
+        ∧ (∃ t, lineToks l.2 = [t] ∧ t.cuttable = true) ∧ lineBlank l.2 = true) := by
+  obtain ⟨b, l⟩ := l
+  cases b with
+  | false =>
+    rcases renderLine_cases l with h | ⟨h1, h2, h3, _⟩
+    · exact Or.inl h
+    · exact Or.inr ⟨h1, h2, h3⟩
+  | true =>
+    simp only [renderLineE]
+    by_cases h : removableC l = true
+    · right
+      rw [if_pos h]
+      unfold removableC at h
+      simp only [Bool.and_eq_true] at h
+      refine ⟨rfl, ?_, h.1.2⟩
+      generalize lineToks l = ts at h
+      match ts, h with
+      | [t], h => exact ⟨t, rfl, by simpa [oneCuttable] using h.1.1⟩
+      | [], h => simp [oneCuttable] at h
+      | _ :: _ :: _, h => simp [oneCuttable] at h
+    · left; rw [if_neg h]
 
 /-- every text byte of a blank line is a space, a tab, a CR or a LF -/
 theorem lineBlank_mem {l : List Item} (h : lineBlank l = true) (b : UInt8) (hb : Item.byte b ∈ l) :
@@ -162,19 +237,77 @@ namespace ScriggoV.Cut
 open ScriggoV.CutSpec
 
 theorem inv_init : Inv PSt.init [] 0 [] :=
-  ⟨rfl, Or.inl ⟨rfl, rfl, rfl⟩, Nat.le_refl _, rfl, rfl, rfl, by intro n hn; cases hn⟩
+  ⟨rfl, Or.inl ⟨rfl, rfl, rfl⟩, Nat.le_refl _, rfl, rfl, rfl, (by intro n hn; cases hn),
+   (by intro t ht; cases ht)⟩
+
+/-- the token loop and the emitter together give the rule as the engine applies it, for every
+well-formed token list -/
+theorem renderRaws_eq_engine (raws : List Raw) (firstLine skipped : Nat) (hwf : WF raws = true)
+    (hfl : 0 < firstLine) :
+    renderRaws firstLine skipped raws = .ok (engineRender raws) := by
+  unfold WF at hwf
+  rw [Bool.and_eq_true] at hwf
+  have := sim (skipped + spanSum raws) raws PSt.init firstLine skipped [] 0 [] hwf.1
+    (by simpa [lastIsText, PSt.init] using hwf.2) rfl inv_init
+    (fun _ => Or.inr ⟨rfl, hfl, rfl, rfl, rfl⟩) (by intro n hn; cases hn)
+  unfold renderRaws
+  rw [this]
+  simp [engineRender, curOf, restItems, PSt.init]
+
+theorem splitLinesE_bytes (bs : Bytes) (more : List Item)
+    (h : ∀ cur, splitLinesE more cur = (splitLines more cur).map (fun l => (false, l))) :
+    ∀ cur, splitLinesE (bytesI bs ++ more) cur
+      = (splitLines (bytesI bs ++ more) cur).map (fun l => (false, l)) := by
+  induction bs with
+  | nil => simpa using h
+  | cons c cs ih =>
+    intro cur
+    by_cases hc : c == LF
+    · have : c = LF := eq_of_beq hc
+      subst this
+      rw [bytesI_cons, List.cons_append, splitLinesE_byte_LF, splitLines_byte_LF, ih]
+      simp
+    · have hc' : (c == LF) = false := by simpa using hc
+      rw [bytesI_cons, List.cons_append, splitLinesE_byte_ne _ _ _ hc', splitLines_byte_ne _ _ _ hc', ih]
+
+/-- without comments that span lines or end the file the engine's lines are the rule's lines -/
+theorem splitLinesE_of_inClass (raws : List Raw) (hwf : raws.all Raw.wf = true)
+    (hcl : inClass raws = true) :
+    ∀ cur, splitLinesE (items raws) cur = (splitLines (items raws) cur).map (fun l => (false, l)) := by
+  induction raws with
+  | nil => intro cur; rfl
+  | cons r rs ih =>
+    simp only [List.all_cons, Bool.and_eq_true] at hwf
+    cases r with
+    | text bs =>
+      have := splitLinesE_bytes bs (items rs) (ih hwf.2 (inClass_tail_text bs rs hcl))
+      simpa [items, bytesI] using this
+    | nt x =>
+      obtain ⟨hcl', hcn, hcf⟩ := inClass_nt x rs hcl
+      intro cur
+      have hb : breaksBefore x (items rs).isEmpty = false := by
+        rw [items_isEmpty rs hwf.2]
+        unfold breaksBefore
+        by_cases hc : x.comment = true
+        · have hne : rs ≠ [] := fun e => by rw [hcf e] at hc; cases hc
+          have : rs.isEmpty = false := by cases rs <;> simp at hne ⊢
+          simp [hc, hcn hc, this]
+        · simp [hc]
+      simp only [items]
+      rw [splitLinesE_tok_plain _ _ _ hb, splitLines_tok, ih hwf.2 hcl']
+
+theorem engineRender_eq_spec (raws : List Raw) (hwf : WF raws = true) (hcl : inClass raws = true) :
+    engineRender raws = specRender raws := by
+  unfold WF at hwf
+  rw [Bool.and_eq_true] at hwf
+  unfold engineRender specRender lines
+  rw [splitLinesE_of_inClass raws hwf.1 hcl []]
+  simp [List.flatMap_map, renderLineE]
 
 /-- the token loop and the emitter together give what the line rule gives -/
 theorem renderRaws_eq_spec (raws : List Raw) (firstLine skipped : Nat) (hwf : WF raws = true)
     (hcl : inClass raws = true) (hfl : 0 < firstLine) :
     renderRaws firstLine skipped raws = .ok (specRender raws) := by
-  unfold WF at hwf
-  rw [Bool.and_eq_true] at hwf
-  have := sim (skipped + spanSum raws) raws PSt.init firstLine skipped [] 0 [] hwf.1
-    (by simpa [lastIsText, PSt.init] using hwf.2) hcl rfl inv_init
-    (fun _ => Or.inr ⟨rfl, hfl, rfl, rfl, rfl⟩) (by intro n hn; cases hn)
-  unfold renderRaws
-  rw [this]
-  simp [specRender, lines, curOf, restItems, PSt.init]
+  rw [renderRaws_eq_engine raws _ _ hwf hfl, engineRender_eq_spec raws hwf hcl]
 
 end ScriggoV.Cut
